@@ -194,6 +194,43 @@ def leakage(ctx):
                     ctx.violation('mixed-class history: %s decided %r, policy says %r' % (what, got, exp), {'order': order, 'index': k})
 
 
+def same_class_histories(ctx):
+    """One decorated class (its RecordingParameters registered once, as a service does) invoked many times on one recorder:
+    forcing, discarding or ignoring in one invocation must not influence the decision of the next invocation of that class."""
+    from playback.tape_recorder import TapeRecorder
+    steps = ['force', 'plain', 'force_then_discard', 'body_force', 'plain', 'discard', 'plain', 'force', 'force', 'plain']
+    for rate, ignore in itertools.product([0, 0.3], [False, True]):
+        for rot in range(len(steps)):
+            seq = steps[rot:] + steps[:rot]
+            with open_box('memory') as box:
+                spy = SpyCassette(box.cassette)
+                rec = TapeRecorder(spy)
+                rec._random = SpyRandom(1)
+                rec.enable_recording()
+                built = None
+                p = dict(table_prog('return'), uid=923000 + int(rate * 10) * 2 + int(ignore))
+                for k, what in enumerate(seq):
+                    faults = {}
+                    if what in ('force', 'force_then_discard'):
+                        faults[('main', 1)] = 'force'
+                    if what == 'body_force':
+                        faults[('main', 1)] = 'body_force'
+                    if what in ('discard', 'force_then_discard'):
+                        faults[('main', 2)] = 'discard'
+                    res = fr.execute(p, faults, recorder=rec, spy=spy, box=box, with_twin=False, scripted_draws=[0.5], rate=rate,
+                                     ignore_forced=ignore, built=built)
+                    built = res.live
+                    got = observe(res)
+                    forced = what in ('force', 'body_force') and not ignore
+                    exp = 'abort' if what in ('discard', 'force_then_discard') else ('save' if forced else 'abort')   # draw 0.5 > both rates
+                    ctx.case(('same-class', rate, ignore, rot, k))
+                    ctx.count('same_class_decisions')
+                    if got != exp:
+                        ctx.violation('same class invoked repeatedly: invocation %d (%s) decided %r, policy says %r' % (k, what, got, exp),
+                                      {'rate': rate, 'ignore_forcing': ignore, 'sequence': seq, 'index': k})
+                        break
+
+
 def s3_calculator(ctx):
     for ratio, draw in itertools.product([0, 0.3, 1, 1.7, 0.999], [0.0, 0.1, 0.3, 0.9]):
         fake = FakeS3()
@@ -272,6 +309,7 @@ def run(ctx):
     histories(ctx)
     if ctx.shard == 0:
         leakage(ctx)
+        same_class_histories(ctx)
         s3_calculator(ctx)
     ctx.sample({'row': {'skipped': False, 'rate': 0.3, 'forcing': 'body', 'ignore_forcing': True, 'discard': 'none', 'outcome': 'interrupt', 'draw': 0.3},
                 'expected': 'save (forcing ignored, draw 0.3 <= rate 0.3)'})
